@@ -88,6 +88,12 @@ func (p *pg) genCrash(profile string) (Config, Plan) {
 	if profile == "C02" && p.r.Intn(3) == 0 {
 		return c, p.tornCycles(&c)
 	}
+	if profile == "C01" && p.r.Intn(6) == 0 {
+		// the same torn crash / recover / append cycles judged by C01's statement:
+		// what is acknowledged right after a recovery that rewound a torn batch must
+		// survive the next crash and recovery
+		return c, p.tornCycles(&c)
+	}
 	if (profile == "C01" || profile == "C02" || profile == "C04") && p.r.Intn(16) == 0 {
 		return c, p.bigBatches(&c)
 	}
